@@ -4,7 +4,7 @@ import (
 	"github.com/tonistiigi/fsutil/zz_verif/v"
 )
 
-const allocMax = 1 << 31
+const vh_allocMax = 1 << 31
 
 // VH_C19_alloc_step: one alloc(n) from an arbitrary valid buffer state (K chunks with fully
 // symbolic len/cap, request n in [0, 2^31)): the result has length n, overlaps no byte handed out
@@ -15,7 +15,7 @@ func VH_C19_alloc_step() {
 	old := make([][]byte, k)
 	for i := 0; i < k; i++ {
 		l, c := v.Int("len"), v.Int("cap")
-		v.Assume(0 <= l && l <= c && c > 0 && c < allocMax)
+		v.Assume(0 <= l && l <= c && c > 0 && c < vh_allocMax)
 		if i == k-1 {
 			// representation invariant of the chunk allocations go into: a standard chunk, or a full one
 			v.Assume(c == chunkSize || l == c)
@@ -25,7 +25,7 @@ func VH_C19_alloc_step() {
 		old[i] = ch
 	}
 	n := v.Int("n")
-	v.Assume(0 <= n && n < allocMax)
+	v.Assume(0 <= n && n < vh_allocMax)
 	r := b.alloc(n)
 	v.Observe("len_r", len(r))
 	v.Assert(len(r) == n, "alloc(n) returns a slice of length n")
@@ -64,7 +64,7 @@ func VH_C19_alloc_seq() {
 	sum := 0
 	for i := 0; i < k; i++ {
 		n := v.Int("n")
-		v.Assume(0 <= n && n < allocMax)
+		v.Assume(0 <= n && n < vh_allocMax)
 		rs[i] = b.alloc(n)
 		v.Assert(len(rs[i]) == n, "alloc(n) returns a slice of length n")
 		sum += n
